@@ -160,6 +160,29 @@ def SMsg.wellFormed : SMsg → Bool
   | .refuse _ => true
   | .queryReply t => t.all fun p => wellFormedOne p.2
 
+/-- a `uint16` field of a handshake message (`MsgAcceptVersion.Version`, the keys of the version
+    maps) decoded from the item on the wire: an unsigned integer of any head width (or bignum /
+    tagged integer) must fit 16 bits — anything above 65535 is a decode error, never a
+    truncation; fxamacker also maps `null` to 0 and a simple value to its number -/
+def asU16 : Item → Option Nat
+  | .uint n => if n < 65536 then some n else none
+  | .nullish => some 0
+  | .simple n => some n
+  | _ => none
+
+def decodeU16 (b : Bytes) : Option Nat :=
+  match readTagged (b.length + 1) b with
+  | some (i, []) => asU16 i
+  | _ => none
+
+/-- decoding of the message `[1, <version item>, <version data item>]` followed by
+    `Client.handleAcceptVersion` -/
+def clientReceiveAccept (lk : Lookup) (C : VMap) (ver data : Bytes) : COut :=
+  if !(wellFormedOne ver && wellFormedOne data) then .err "decode" else
+  match decodeU16 ver with
+  | none => .err "decode"
+  | some v => clientHandleAccept lk C v data
+
 /-- message decoding + `Client.messageHandler` -/
 def clientReceive (lk : Lookup) (C : VMap) (msg : SMsg) : COut :=
   if msg.wellFormed then clientHandle lk C msg else .err "decode"
